@@ -428,15 +428,18 @@ func (fc *funcContext) translateExpr(expr ast.Expr) *expression {
 							// Arithmetic shift by the operand width or more yields the sign.
 							return fc.fixNumber(fc.formatExpr("%e >> 31", e.X), basic)
 						}
-						return fc.formatExpr("0")
+						// The result is 0, but the operand is still evaluated (calls, nil dereferences).
+						return fc.formatParenExpr("%e, 0", e.X)
 					}
 					return fc.fixNumber(fc.formatExpr("%e %s %s", e.X, op, strconv.FormatUint(i, 10)), basic)
 				}
 				if e.Op == token.SHR && !isUnsigned(basic) {
 					return fc.fixNumber(fc.formatParenExpr("%e >> $min(%s, 31)", e.X, fc.shiftCount(e.Y)), basic)
 				}
+				// The operand is evaluated before the count, and also when the count is 32 or more.
+				x := fc.newLocalVariable("x")
 				y := fc.newLocalVariable("y")
-				return fc.fixNumber(fc.formatExpr("(%s = %s, %s < 32 ? (%e %s %s) : 0)", y, fc.shiftCount(e.Y), y, e.X, op, y), basic)
+				return fc.fixNumber(fc.formatExpr("(%s = %e, %s = %s, %s < 32 ? (%s %s %s) : 0)", x, e.X, y, fc.shiftCount(e.Y), y, x, op, y), basic)
 			case token.AND, token.OR:
 				if isUnsigned(basic) {
 					return fc.formatParenExpr("(%e %t %e) >>> 0", e.X, e.Op, e.Y)
